@@ -124,6 +124,10 @@ func nodeStoreOK(c *Ctx, fn *ssa.Function, s *ssa.Store, fa *ssa.FieldAddr, ptrT
 			reasons = append(reasons, "zero value")
 			continue
 		}
+		if derives && nodeLazyPhi(s.Val, o, fa.Field, ptrT) {
+			reasons = append(reasons, "fresh value chosen where the inherited one was found empty (lazy initialisation in a derived scope)")
+			continue
+		}
 		if derives && nodeLazyGuard(s, fa) {
 			reasons = append(reasons, "fresh value stored where the field was found empty (lazy initialisation in a derived scope)")
 			continue
@@ -155,7 +159,25 @@ func isZeroValueOf(v ssa.Value) bool {
 
 // nodeFilledFromParent: the made slice receives elements loaded from the same field of another scope
 func nodeFilledFromParent(ms *ssa.MakeSlice, field int, ptrT types.Type) bool {
+	parentField := func(v ssa.Value) bool {
+		l, ok := v.(*ssa.UnOp)
+		if !ok || l.Op != token.MUL {
+			return false
+		}
+		ofa, ok := l.X.(*ssa.FieldAddr)
+		return ok && ofa.Field == field && types.Identical(ofa.X.Type(), ptrT)
+	}
 	for _, r := range *ms.Referrers() {
+		// copy(list[1:], parent.list)
+		if sl, ok := r.(*ssa.Slice); ok {
+			for _, rr := range *sl.Referrers() {
+				if call, ok := rr.(*ssa.Call); ok {
+					if b, ok := call.Call.Value.(*ssa.Builtin); ok && b.Name() == "copy" && len(call.Call.Args) == 2 && call.Call.Args[0] == ssa.Value(sl) && parentField(call.Call.Args[1]) {
+						return true
+					}
+				}
+			}
+		}
 		ia, ok := r.(*ssa.IndexAddr)
 		if !ok {
 			continue
@@ -221,4 +243,70 @@ func nodeLazyGuard(s *ssa.Store, fa *ssa.FieldAddr) bool {
 		}
 	}
 	return false
+}
+
+// nodeLazyPhi: the stored value is φ(inherited, fresh) and the fresh edge is taken only where the inherited value
+// was tested empty (`v := parent.f; if v == nil { v = make(…) }`, `if v.IsZero() { v = … }`)
+func nodeLazyPhi(stored ssa.Value, fresh ssa.Value, field int, ptrT types.Type) bool {
+	inherited := func(v ssa.Value) bool {
+		l, ok := v.(*ssa.UnOp)
+		if !ok || l.Op != token.MUL {
+			return false
+		}
+		ofa, ok := l.X.(*ssa.FieldAddr)
+		return ok && ofa.Field == field && types.Identical(ofa.X.Type(), ptrT)
+	}
+	phi, ok := stored.(*ssa.Phi)
+	if !ok {
+		return false
+	}
+	var inh ssa.Value
+	for _, e := range phi.Edges {
+		if inherited(e) {
+			inh = e
+		}
+	}
+	if inh == nil {
+		return false
+	}
+	for i, e := range phi.Edges {
+		isFresh := false
+		for _, o := range core.Origins(e, true) {
+			if o == fresh {
+				isFresh = true
+			}
+		}
+		if !isFresh || inherited(e) {
+			continue
+		}
+		// the edge's predecessor must lie under the "inherited is empty" outcome of a test of inh
+		pred := phi.Block().Preds[i]
+		guarded := false
+		for b := pred; b != nil && !guarded; b = b.Idom() {
+			id := b.Idom()
+			if id == nil || len(id.Instrs) == 0 || len(id.Succs) != 2 {
+				continue
+			}
+			iff, ok := id.Instrs[len(id.Instrs)-1].(*ssa.If)
+			if !ok {
+				continue
+			}
+			under := func(succ int) bool { return id.Succs[succ] == b || id.Succs[succ].Dominates(b) }
+			switch cnd := iff.Cond.(type) {
+			case *ssa.BinOp:
+				isNilTest := cnd.X == inh && core.IsNilConst(cnd.Y) || cnd.Y == inh && core.IsNilConst(cnd.X)
+				if isNilTest && (cnd.Op == token.EQL && under(0) || cnd.Op == token.NEQ && under(1)) {
+					guarded = true
+				}
+			case *ssa.Call:
+				if f := cnd.Common().StaticCallee(); f != nil && (f.Name() == "IsZero" || f.Name() == "IsEmpty") && len(cnd.Common().Args) == 1 && cnd.Common().Args[0] == inh && under(0) {
+					guarded = true
+				}
+			}
+		}
+		if !guarded {
+			return false
+		}
+	}
+	return true
 }
